@@ -298,7 +298,7 @@ Section Conv.
   Proof.
     destruct op as [g i m|r a0 a1 b0 b1|hh m|hh t m|m|t m]; cbn [op_wf op_heralded swap_ok op_ok].
     - intros (q & -> & Hq & [Hs|[Hr _]]) _ _; exists q; auto.
-    - intros (qa & qb & -> & -> & -> & -> & Ha & Hb & _) _ Hne. exists qa, qb. repeat split; auto. lia.
+    - intros (qa & qb & -> & -> & -> & -> & Ha & Hb & _) _ Hne. exists qa, qb. repeat split; auto; lia.
     - intros Hw -> _. exact Hw.
     - intros Hw -> _. exact Hw.
     - intros _ [].
@@ -322,7 +322,7 @@ Section Conv.
     exists c', emit_step c op = Ok c' /\
                dr_acts o e0 c' nq (kmul cq Kc (op_k op)) (Vs (den sst (sact cq m1) ssw op s)).
   Proof.
-    intros Hop HA. pose proof HA as (S & _).
+    intros Hop HA. pose proof HA as (Sh & _).
     destruct op as [g i m|r a0 a1 b0 b1|[|] m|[|] t m|m|t m]; cbn [op_ok] in Hop; try contradiction.
     - (* single-qubit gate / rotation *)
       destruct Hop as (q & -> & Hq & Hg).
@@ -343,7 +343,7 @@ Section Conv.
           apply rq_rows_named; apply idx1_lt. }
       destruct G as (gt & rows & G1 & G2 & Hok).
       pose proof Hok as (_ & _ & _ & HnS & _).
-      destruct (block_accept o c (g_circ gt) nq q 1 false S HnS ltac:(lia) ltac:(lia)) as [c' Hc'].
+      destruct (block_accept o c (g_circ gt) nq q 1 false Sh HnS ltac:(lia) ltac:(lia)) as [c' Hc'].
       exists c'. split; [unfold emit_step; rewrite G1, G2; cbn [bind op_mode]; exact Hc'|].
       pose proof (block_step o ninv ninv_spec e0 c (g_circ gt) c' nq q 1 Kc (k1 cq) (Vs s) _ false HA Hok ltac:(lia) Hc') as HB.
       cbn [op_k]. eapply dr_acts_ext; [|exact HB].
@@ -354,7 +354,7 @@ Section Conv.
       destruct (swap_gate_ok qa qb Hne) as (gt & Hgt & Hok).
       pose proof Hok as (_ & _ & _ & HnS & _).
       set (k := S (Nat.max qa qb)) in *.
-      destruct (block_accept o c (g_circ gt) nq 0 k false S HnS ltac:(lia) ltac:(lia)) as [c' Hc'].
+      destruct (block_accept o c (g_circ gt) nq 0 k false Sh HnS ltac:(lia) ltac:(lia)) as [c' Hc'].
       exists c'. split; [unfold emit_step; cbn [gate_of]; rewrite Hgt; cbn [bind op_mode]; exact Hc'|].
       pose proof (block_step o ninv ninv_spec e0 c (g_circ gt) c' nq 0 k Kc (k1 cq) (Vs s) _ false HA Hok ltac:(lia) Hc') as HB.
       cbn [op_k]. eapply dr_acts_ext; [|exact HB].
@@ -364,7 +364,7 @@ Section Conv.
     - (* CZ_Heralded *)
       destruct Hop as (q & -> & Hq). destruct HCZ as [Hgt Hok].
       pose proof Hok as (_ & _ & _ & HnS & _).
-      destruct (block_accept o c (g_circ gtCZ) nq q 2 false S HnS ltac:(lia) ltac:(lia)) as [c' Hc'].
+      destruct (block_accept o c (g_circ gtCZ) nq q 2 false Sh HnS ltac:(lia) ltac:(lia)) as [c' Hc'].
       exists c'. split; [unfold emit_step; cbn [gate_of]; rewrite Hgt; cbn [bind op_mode]; exact Hc'|].
       pose proof (block_step o ninv ninv_spec e0 c (g_circ gtCZ) c' nq q 2 Kc kcz (Vs s) _ false HA Hok ltac:(lia) Hc') as HB.
       cbn [op_k]. eapply dr_acts_ext; [|exact HB].
@@ -379,7 +379,7 @@ Section Conv.
         - exists gtCX1, kcx1. destruct HCX1 as [H1 H2]. split; [exact H1|]. split; [reflexivity|exact H2]. }
       destruct G as (gt & kG & Hgt & Hk & Hok). rewrite Hk.
       pose proof Hok as (_ & _ & _ & HnS & _).
-      destruct (block_accept o c (g_circ gt) nq q 2 false S HnS ltac:(lia) ltac:(lia)) as [c' Hc'].
+      destruct (block_accept o c (g_circ gt) nq q 2 false Sh HnS ltac:(lia) ltac:(lia)) as [c' Hc'].
       exists c'. split; [unfold emit_step; rewrite Hgt; cbn [bind op_mode]; exact Hc'|].
       pose proof (block_step o ninv ninv_spec e0 c (g_circ gt) c' nq q 2 Kc kG (Vs s) _ false HA Hok ltac:(lia) Hc') as HB.
       eapply dr_acts_ext; [|exact HB].
@@ -423,7 +423,7 @@ Section Conv.
     { rewrite Forall_forall in *. intros op Hop. eapply op_ok_intro; eauto. }
     assert (A0 : dr_acts o e0 (new_circ (2 * nq)) nq (k1 cq) (Vs (s_id cq nq))).
     { eapply dr_acts_ext; [|apply new_circ_acts]. intros b b' Hb Hb'. unfold Vs, qid.
-      symmetry. apply sval_id; assumption. }
+      symmetry. exact (@sval_id T cq (cplx_star o) nq b b' Hb Hb'). all: assumption. }
     destruct (run_emitted_acts nq ops _ _ _ Hok A0) as (c & Ec & Ac).
     exists c. split; [exact Ec|]. apply acts_iff. unfold Vsrc.
     rewrite <- (sem_emitted_denotes_source cq m1 false gs ops rules (s_id cq nq) Hd Hc). exact Ac.
